@@ -370,15 +370,11 @@ func c20CLI(c *Ctx) {
 	vq := c.P.Func("internal/validation", "", "ValidateQuery")
 	if vq != nil {
 		ok, nAccept := true, 0
-		for _, ret := range ssau.ReturnsOf(vq) {
-			if !ssau.IsNilConst(ssau.ResultValue(ret, 1)) {
-				continue
-			}
+		for _, kinds := range c14AcceptedKinds(vq) {
 			nAccept++
-			steps, _ := stringChain(ssau.ResultValue(ret, 0))
 			hasCollapse := false
-			for _, s := range steps {
-				if s.kind == "collapse" {
+			for _, k := range kinds {
+				if k == "collapse" {
 					hasCollapse = true
 				}
 			}
@@ -430,5 +426,40 @@ func c20Key(c *Ctx) {
 			}
 		}
 	})
-	r.Check(found && bad == "", "O-4", "cache.(*SearchCache).generateCacheKey#normalisation", c.P.Pos(gk.Pos()), "key query = ToLower(TrimSpace(query))", "the cache key does not normalise the query by exactly ToLower and TrimSpace: "+bad)
+	r.Check(found && bad == "", "O-4", "cache.(*SearchCache).generateCacheKey#normalisation", c.P.Pos(gk.Pos()), "the key folds the query's case (and applies nothing but case folding and trimming)", "the cache key does not fold the case of the query, or normalises it by more than ToLower and TrimSpace: "+bad)
+}
+
+// cacheKeyQuerySteps: the transformers generateCacheKey applies to the query
+// before it is marshalled and hashed (kinds of stringChain), and where.
+func cacheKeyQuerySteps(c *Ctx) (kinds []string, pos string, found bool) {
+	gk := c.P.Func("internal/cache", "SearchCache", "generateCacheKey")
+	if gk == nil {
+		return nil, "", false
+	}
+	seen := map[string]bool{}
+	ssau.ForEachInstr(gk, false, func(in ssa.Instruction) {
+		call, ok := in.(*ssa.Call)
+		if !ok {
+			return
+		}
+		if b, isB := call.Type().Underlying().(*types.Basic); !isB || b.Kind() != types.String {
+			return
+		}
+		steps, root := stringChain(call)
+		if root != ssa.Value(gk.Params[1]) {
+			return
+		}
+		found = true
+		for _, s := range steps {
+			if !seen[s.kind] {
+				seen[s.kind] = true
+				kinds = append(kinds, s.kind)
+				if pos == "" || s.kind == "trim" {
+					pos = c.P.Pos(s.call.Pos())
+				}
+			}
+		}
+	})
+	sort.Strings(kinds)
+	return kinds, pos, found
 }
